@@ -8,6 +8,7 @@
 From Coq Require Import String.
 From Coq Require Import ZArith List Bool Lia.
 From Ckl Require Import Prelude.PyPrelude Model.Values Model.Arith Gen.PredTable Proofs.ArithProofs.
+From Ckl Require Import Model.ExprParse Proofs.ExprParseRT Proofs.ExprParseMore.
 Import ListNotations.
 Open Scope Z_scope.
 
@@ -101,6 +102,47 @@ Print Assumptions C02_is_not.
 Theorem C02_negated_postfix_forms : forallb top_pair_ok top_neg_pairs = true.
 Proof. exact top_pairs_negate. Qed.
 Print Assumptions C02_negated_postfix_forms.
+
+(* ---- precedence and association (Model/ExprParse.v: hand model of the operator core of the parser, tied by checks/C02.py) ----
+   [render] writes a tree with parentheses only around an operand whose level is lower than its position demands:
+   or 1 < and 2 < not 3 < comparison 4 < additive 5 < multiplicative 6 < unary 7 < primary / call 8, the right operand of + - and
+   of * / % one level higher than the left one.  The parser reads that text back as the same tree, for trees of any depth:
+   so the levels and the left association are the ones stated, and no parenthesis [render] leaves out is needed. *)
+Theorem C02_parse_render : forall e, wf e = true -> parse (render e) = Ok e [].
+Proof. exact parse_render. Qed.
+Print Assumptions C02_parse_render.
+
+Theorem C02_render_injective : forall a b, wf a = true -> wf b = true -> render a = render b -> a = b.
+Proof. exact render_injective. Qed.
+Print Assumptions C02_render_injective.
+
+(* a comparison chain a r1 b r2 c ... is the conjunction of its adjacent pairs (one pair: the comparison itself) *)
+Theorem C02_parse_chain : forall a l, wf a = true -> forallb (fun p => wf (snd p)) l = true -> l <> [] ->
+  parse (render_at 5 a ++ chain_tail l) = Ok (simplified (clauses a l)) [].
+Proof. exact parse_chain. Qed.
+Print Assumptions C02_parse_chain.
+
+(* unary minus: a literal is negated, anything else is subtracted from 0; unary plus is dropped *)
+Theorem C02_parse_neg : forall e, wf e = true -> literal_nat e = false -> parse (TMinus :: render_at 8 e) = Ok (EBin 1 (EInt 0) e) [].
+Proof. exact parse_neg. Qed.
+Print Assumptions C02_parse_neg.
+Theorem C02_parse_neg_literal : forall z, parse [TMinus; TInt z] = Ok (EInt (- z)) [].
+Proof. exact parse_neg_literal. Qed.
+Print Assumptions C02_parse_neg_literal.
+Theorem C02_parse_pos : forall e, wf e = true -> parse (TPlus :: render_at 8 e) = Ok e [].
+Proof. exact parse_pos. Qed.
+Print Assumptions C02_parse_pos.
+
+(* the table of the statement, read off [render]: a op1 b op2 c groups to the left when op1 binds at least as tightly as op2 ... *)
+Example C02_parse_ex :
+  render (EBin 0 (EInt 1) (EBin 2 (EInt 2) (EInt 3))) = [TInt 1; TPlus; TInt 2; TMul 0; TInt 3]                      (* 1 + 2 * 3 *)
+  /\ render (EBin 2 (EBin 0 (EInt 1) (EInt 2)) (EInt 3)) = [TLP; TInt 1; TPlus; TInt 2; TRP; TMul 0; TInt 3]          (* (1 + 2) * 3 *)
+  /\ render (EBin 1 (EBin 1 (EInt 1) (EInt 2)) (EInt 3)) = [TInt 1; TMinus; TInt 2; TMinus; TInt 3]                  (* 1 - 2 - 3 *)
+  /\ render (EBin 1 (EInt 1) (EBin 1 (EInt 2) (EInt 3))) = [TInt 1; TMinus; TLP; TInt 2; TMinus; TInt 3; TRP]        (* 1 - (2 - 3) *)
+  /\ render (EOrL [EAndL [EVar 0; ENot (ECmp 2 (EVar 1) (EBin 0 (EVar 2) (EInt 1)))]; EVar 3])
+     = [TId 0; TAnd; TNot; TId 1; TRel 2; TId 2; TPlus; TInt 1; TOr; TId 3]                                          (* a and not b < c + 1 or d *)
+  /\ parse [TInt 1; TRel 2; TInt 2; TRel 3; TInt 3] = Ok (EAndL [ECmp 2 (EInt 1) (EInt 2); ECmp 3 (EInt 2) (EInt 3)]) [].
+Proof. repeat split; reflexivity. Qed.
 
 Example C02_ex :
   arith Div (DInt (-7)) (DInt 2) = OVal (DInt (-3)) /\ arith Mod (DInt (-7)) (DInt 2) = OVal (DInt 1) /\
